@@ -290,8 +290,62 @@ def expected_alt(key, s):
     return re.sub(r"( )+", " ", s.strip()) if key in SURVEY_KEYS else s
 
 
+def _check_instance_text(seed, i):
+    """user text mixed with two or more instance() expressions, the SAME text in two places of one form (two languages, or two rows) and the
+    form converted twice in this process: every occurrence must show the user's words unchanged around one <output/> per expression"""
+    rng = rng_for(seed, PID, "instance-text", i)
+    words = ["District", "it has to survive unchanged", "a < b & c", "again", "50% of them", "x", "résumé"]
+    n = rng.choice([2, 2, 3])
+    exprs = [f"instance('dl9')/root/item[name = '{rng.choice('ab')}']/label" for _ in range(n)]
+    # an expression runs up to the next white space, so the words after it start with a space
+    segs = [("" if k == 0 else " ") + rng.choice(words) + rng.choice([": ", " ", " -- "]) for k in range(n)] + [rng.choice([" .", " end", ""])]
+    txt = "".join(seg + e for seg, e in zip(segs, exprs)) + segs[-1]
+    two_langs = rng.random() < 0.5
+    survey = [{"type": "select_one dl9", "name": "pick", "label": "Pick"}]
+    if two_langs:
+        survey[0] = {"type": "select_one dl9", "name": "pick", "label::en": "Pick", "label::fr": "Choisir"}
+        survey.append({"type": "note", "name": "n1", "label::en": txt, "label::fr": txt})
+    else:
+        survey += [{"type": "note", "name": "n1", "label": txt}, {"type": "note", "name": "n2", "label": txt}]
+    form = {"survey": survey, "choices": [{"list_name": "dl9", "name": "a", "label": "A"}, {"list_name": "dl9", "name": "b", "label": "B"}]}
+    want = []
+    for seg, e in zip(segs, exprs):
+        want += [("T", seg), ("O", e)]
+    want.append(("T", segs[-1]))
+
+    def canon(seq):
+        out = []
+        for k, v in seq:
+            v = " ".join(v.split()) if k == "T" else v.replace(" ", "")
+            if k == "T" and out and out[-1][0] == "T":
+                out[-1] = ("T", (out[-1][1] + " " + v).strip())
+            elif not (k == "T" and v == ""):
+                out.append((k, v))
+        return out
+    for attempt in range(2):
+        st, r = xf.convert_form(forms.as_dict(form))
+        if st != "ok":
+            return {"i": i, "skip": st, "err": str(r)[:200]} if st == "pyxerr" else {"i": i, "form": form, "what": f"conversion crashed on a text with {n} instance() expressions (attempt {attempt + 1}): {r!r}"[:600]}
+        root = xf.lparse(r.xform)
+        holders = [v for v in root.iter(xf.XF + "value") if v.getparent().get("id", "").endswith(("n1:label", "n2:label"))]
+        holders += [e for e in root.iter(xf.XF + "label") if e.get("ref") is None and e.getparent().get("ref") in ("/data/n1", "/data/n2")]
+        if len(holders) != 2:
+            return {"i": i, "form": form, "what": f"expected the text in two places, found it in {len(holders)}", "xform": r.xform[:2500]}
+        for h in holders:
+            seq = [("T", h.text or "")]
+            for c in h:
+                seq.append(("O", c.get("value") or "") if isinstance(c.tag, str) and c.tag.endswith("output") else ("T", "<" + str(c.tag) + ">"))
+                seq.append(("T", c.tail or ""))
+            if canon(seq) != canon(want):
+                return {"i": i, "form": form, "what": f"text with {n} instance() expressions not recovered (conversion {attempt + 1} in this process): got {canon(seq)} expected {canon(want)}"[:900],
+                        "xform": r.xform[:2500]}
+    return {"i": i, "ok": True, "n": 2, "refs": n, "key": hash(txt + str(two_langs))}
+
+
 def _check(args):
     seed, i = args
+    if i % 9 == 4:
+        return _check_instance_text(seed, i)
     rng = rng_for(seed, PID, "oracle", i)
     form, cells, langs = build_form(rng)
     d = forms.as_dict(form)
